@@ -52,10 +52,13 @@ class HouseholderSequence(Transform):
             ).long()
             return torch.index_select(a, dim, order_index)
 
-        qv = tile(torch.eye(num_transforms // 2, features), 0, 2)
+        # Unit vectors e_0, e_1, ... (each used twice), wrapping around when there are more
+        # pairs than features so that no reflection vector is ever all-zero.
+        half = num_transforms // 2
+        qv = tile(torch.eye(features)[torch.arange(half) % features], 0, 2)
         if np.mod(num_transforms, 2) != 0:  # odd number of transforms, including 1
             qv = torch.cat((qv, torch.zeros(1, features)))
-            qv[-1, num_transforms // 2] = 1
+            qv[-1, half % features] = 1
         self.q_vectors = nn.Parameter(qv)
 
     @staticmethod
